@@ -88,6 +88,7 @@ inductive Ev where
   | actionNotFound
   | capError                     -- the capability map does not parse
   | authReply (state : Nat)      -- 3 = done, 1 = error
+  | silent                       -- neither call nor post: service 0 does not run anything
   | badFrame                     -- not a valid header: the connection is closed
   | dead                         -- the connection is closed: nothing is read any more
   deriving Repr, DecidableEq
@@ -150,7 +151,8 @@ def recv (cfg : Cfg) (s : Srv) (k : Nat) (f : Frame) : Srv :=
 
 /-- the outcome of `serviceAuthenticate.Receive` on one mail -/
 def authOutcome (acc : Authenticator) (f : Frame) : Ev :=
-  if f.act != authenticateAction then .actionNotFound
+  if f.typ != 1 && f.typ != 4 then .silent
+  else if f.act != authenticateAction then .actionNotFound
   else match readCapMap f.payload with
     | .error _ => .capError
     | .ok es =>
